@@ -446,3 +446,30 @@ def escape_text_rule(r, ctx):
             "escape_text scans the text %s: every byte of a multi-byte character is written as a character of its own, so a name that needs an escape and contains a non-ASCII character is written as a different name "
             "(the envelope is still valid and is delivered to whoever is registered under the mangled name)" % ("bytewise" if bytewise or widen or fnrefs else "without iterating its characters"))
     return b
+
+
+def guard_mentions(b, block, needles, control=True):
+    """Does the execution of `block` depend on a test that involves one of `needles` (substrings of field / function names)? Looks at the
+    description of every controlling test and - for a test of a hoisted value (`let dispatch = cfg.flag || state == X; if dispatch {..}`) - at
+    what flows into the tested value."""
+    from mirlib import guards, dom_guards, describe_operand
+    gs = guards(b, block) if control else dom_guards(b, block)
+    for d, l, sb in gs:
+        if any(n in d for n in needles):
+            return True
+        t = b.term(sb)
+        if t.get("k") != "switch":
+            continue
+        for x in b.sources(t["discr"], stop_at_calls=False):
+            if x[0] == "call":
+                c = x[1]
+                txt = (c.name or "") + " " + " ".join(describe_operand(b, a) for a in c.args)
+                if any(n in txt for n in needles):
+                    return True
+            elif x[0] == "field":
+                if any(n in str(x[1]) for n in needles):
+                    return True
+            elif x[0] == "const":
+                if any(n in str(x[1]) for n in needles):
+                    return True
+    return False
